@@ -14,6 +14,7 @@ Flow      copies / moves / tuple and Option aggregates / field projections; a ca
           or at least inspected by something that takes the responsibility)
 Sinks     operands of an `ast::Expr` aggregate; in closures, the return place
 """
+from .. import roles
 from ..cfg import DefIndex
 from ..facts import KIND, callee
 
@@ -238,7 +239,7 @@ def helpers_of(facts, crate, roots, depth=2):
     return list(out.values())
 
 
-def run(ck, facts, R, passes, crate="mimium_lang", floor_sources=40):
+def run(ck, facts, R, passes, crate="mimium_lang", floor_sources=40, eliminated_variants=None):
     ck.rule(R, "in the tree-rewriting passes whose completeness later stages rely on (they abort on the forms these passes remove), a child of the node being rewritten — a field of the matched Expr, or the element a closure receives from an adaptor over a child list — never reaches the rebuilt node (an Expr aggregate, or the closure's result) without passing through a call: a raw child in a rebuilt node is a subtree the pass never visits")
     roots = []
     for pth in passes:
@@ -257,3 +258,65 @@ def run(ck, facts, R, passes, crate="mimium_lang", floor_sources=40):
         for g, st, sink, desc in hits:
             ck.bad(R, "raw-child|%s|%s" % (f.short, sink), "%s puts %s into %s at %s without converting it: the subtree below it is never visited by this pass, so a form the pass is relied on to remove survives there and a later stage aborts on it" % (g.short, desc, sink, g.where(st)), g.where(st))
     ck.floor(R, "raw_child_values_tracked", total, floor_sources)
+    # ---- identity default: a traversal whose catch-all hands the node back unchanged (no call that takes an
+    # expression id) skips the children of every variant that lands there.  Such a variant must have no expression
+    # children, be removed by a pass of the table, or be built only by the scope's own passes (it cannot be in the
+    # input); anything else is a form whose subtrees none of the passes built on this traversal ever visits.
+    from ..cfg import reachable
+    from . import cover
+
+    table = eliminated_variants or set()
+    from .belief import late_producer_modules
+
+    late = late_producer_modules()
+    adt = facts.adt(EXPR)
+    child_fields = {v["n"]: [fl[1] for fl in v["f"] if any(k in fl[1] for k in ("ExprNodeId", "RecordField", "MatchArm"))] for v in adt["variants"]}
+    scope_roots = {f.path for f in roots + hs}
+    producers = {}
+    for g in facts.crate(crate).fns:
+        if g.kind == "promoted" or "::test" in g.path or roles.is_derived(g) or any(g.path.startswith(m + "::") for m in late):
+            continue
+        gcov = None
+        for b, st in g.all_stmts():
+            if st[KIND] == "a" and st[5][0] == "agg" and st[5][1][0] == "adt" and st[5][1][1] == EXPR:
+                v = st[5][1][3]
+                # a node rebuilt inside the arm that matched the same form introduces nothing
+                if gcov is None:
+                    gcov = cover.coverage(facts, g, EXPR) or False
+                if gcov and gcov.primary is not None:
+                    from .belief import arm_variants_of_block
+
+                    av = arm_variants_of_block(gcov, b)
+                    if av is not None and av == [v]:
+                        continue
+                producers.setdefault(v, set()).add(g.root)
+    n_id = 0
+    for f in roots + hs:
+        cov = cover.coverage(facts, f, EXPR)
+        if cov is None or cov.primary is None or cov.primary.otherwise_unreachable:
+            continue
+        ob = cov.primary.otherwise
+        region = reachable(f, ob, stop=[cov.primary.block])
+        delegates = False
+        for b, t in f.calls():
+            if b not in region:
+                continue
+            c = callee(t) or ""
+            if c.split("::")[-1] in ("to_expr", "to_span", "to_location", "clone", "into_id", "into_id_without_span", "deref"):
+                continue
+            if any(a[0] in ("cp", "mv") and is_id_ty(f.local_ty(a[1][0])) for a in t[5]):
+                delegates = True
+        if delegates:
+            continue
+        n_id += 1
+        for v in sorted(cov.catchall):
+            if not child_fields.get(v):
+                continue
+            key = "identity-default|%s|%s" % (f.short.split("::")[-1], v)
+            if v in table:
+                ck.ok(R, key, {"variant": v, "discharge": "removed by a pass of tables/eliminated.toml"})
+            elif producers.get(v) and producers[v] <= scope_roots:
+                ck.ok(R, key, {"variant": v, "discharge": "only built by %s" % ", ".join(sorted(x.split("::")[-1] for x in producers[v]))})
+            else:
+                ck.bad(R, key, "%s hands every Expr::%s back unchanged (it has no arm for it and its catch-all does not recurse), but that form has expression children (%s) and nothing removes it first: none of the passes built on this traversal visits those children, so an operator, `_`, `self` or macro call written there survives to a stage that aborts on it" % (f.short, v, ", ".join(child_fields[v])), f.where(f.term(ob)))
+    ck.setcount("traversals_with_identity_default", n_id)
